@@ -194,6 +194,7 @@ def check(index, ctx):
                 if isinstance(node, (ast.Global, ast.Nonlocal)):
                     ctx.violated("R3", f"{m.name}: {ast.unparse(node)}", "global/nonlocal state in the aggregation package", f"{m.path}:{node.lineno}")
     ctx.floor("paths analysed", n_paths, 40)
+    _numpy_conversions(index, ctx)
     # R3, hidden state outside the objects: memoised helpers and module-level mutable containers of torchjd.aggregation
     import ast as _ast
 
@@ -247,3 +248,67 @@ def check(index, ctx):
     ctx.ok("R3", "torchjd.aggregation: no memoisation / module-level mutable state", f"{n_fn} functions and the module globals scanned", "", nontrivial=False)
     _agg.common_evidence(ctx, index)
     ctx.assumptions.append("finiteness/totality of the result over extreme scales is NOT decided (overflow, conditioning and solver failures are runtime phenomena)")
+
+
+
+def _numpy_conversions(index, ctx):
+    """R6 (totality on matrices that are part of an autograd graph): Tensor.numpy() raises RuntimeError on a tensor that requires grad, so every
+    conversion to numpy in torchjd.aggregation passes force=True or is applied to a value whose chain of method calls (followed through locals
+    assigned once) contains .detach()."""
+    import ast
+
+    ctx.rule("R6", "every Tensor.numpy() conversion in torchjd.aggregation detaches first (`.detach()` in the receiver chain, followed through single-assignment locals) or passes force=True: "
+                   "a finite matrix that requires grad (create_graph=True, requires_grad=True) is a valid input")
+    n = 0
+    for fi in index.all_functions("torchjd.aggregation"):
+        if fi.parent is not None:
+            continue
+        fn = fi.node
+        assigns: dict = {}
+        for a in ast.walk(fn):
+            if isinstance(a, ast.Assign) and len(a.targets) == 1 and isinstance(a.targets[0], ast.Name):
+                assigns.setdefault(a.targets[0].id, []).append(a.value)
+            elif isinstance(a, (ast.AugAssign, ast.AnnAssign, ast.For, ast.NamedExpr, ast.With)):
+                for t in ast.walk(a.target if hasattr(a, "target") else a):
+                    if isinstance(t, ast.Name) and isinstance(t.ctx, ast.Store):
+                        assigns.setdefault(t.id, []).append(None)
+
+        def detached(e, depth=0):
+            """True / False / None (not traced)."""
+            while True:
+                if isinstance(e, ast.Call) and isinstance(e.func, ast.Attribute):
+                    if e.func.attr == "detach":
+                        return True
+                    if e.func.attr in ("cpu", "to", "contiguous", "double", "float", "clone", "reshape", "view", "flatten", "squeeze", "unsqueeze", "type", "T", "t"):
+                        e = e.func.value
+                        continue
+                    return False
+                if isinstance(e, ast.Attribute) and e.attr in ("T", "mT", "data"):
+                    if e.attr == "data":
+                        return True
+                    e = e.value
+                    continue
+                if isinstance(e, ast.Name):
+                    vs = assigns.get(e.id)
+                    if vs is None:
+                        return False  # a parameter (or a global): nothing detached it
+                    if len(vs) == 1 and vs[0] is not None and depth < 4:
+                        return detached(vs[0], depth + 1)
+                    return None
+                return False
+
+        for c in ast.walk(fn):
+            if isinstance(c, ast.Call) and isinstance(c.func, ast.Attribute) and c.func.attr == "numpy":
+                n += 1
+                if any(k.arg == "force" and isinstance(k.value, ast.Constant) and k.value.value is True for k in c.keywords):
+                    ctx.ok("R6", f"{fi.short}: `{ast.unparse(c)[:60]}`", "force=True", fi.loc(c))
+                    continue
+                d = detached(c.func.value)
+                if d is True:
+                    ctx.ok("R6", f"{fi.short}: `{ast.unparse(c)[:60]}`", "detached before the conversion", fi.loc(c))
+                elif d is None:
+                    ctx.undecided("R6", f"{fi.short}: `{ast.unparse(c)[:60]}`", "the receiver of .numpy() is a local assigned more than once: whether it was detached is not traced", fi.loc(c))
+                else:
+                    ctx.violated("R6", f"{fi.short}: `{ast.unparse(c)[:60]}`", "Tensor.numpy() is applied to a value that was never detached: for a finite matrix that is part of an autograd graph "
+                                 "(requires_grad=True, or a Jacobian computed with create_graph=True) it raises RuntimeError instead of returning the aggregation", fi.loc(c))
+    ctx.floor("numpy conversions in torchjd.aggregation", n, 3)
